@@ -151,14 +151,19 @@ def structural_view_rule(run_, pkg):
     n_views = 0
     for qual, fn in pkg.all_functions():
         for node in ast.walk(fn):
-            if isinstance(node, ast.Call) and isinstance(node.func, ast.Attribute) and node.func.attr == "view":
+            if isinstance(node, ast.Call) and isinstance(node.func, ast.Attribute) and node.func.attr == "view" and node.args:
+                arg = node.args[0]
+                cls_here = getattr(fn, "_gs_class", None)
+                makes_se2 = (isinstance(arg, ast.Name) and arg.id == "PoseSE2") or \
+                    (cls_here == "PoseSE2" and ast.unparse(arg) in ("cls", "type(self)", "self.__class__"))
+                if not makes_se2:
+                    continue      # only SE(2) poses carry a construction invariant (the wrapped angle)
                 n_views += 1
-                ok = fn.name == "__new__" and getattr(fn, "_gs_class", None) in pkg.classes and \
-                    pkg.is_subclass(fn._gs_class, "BasePose")
+                ok = fn.name == "__new__" and cls_here == "PoseSE2"
                 run_.check(ok, "%s/view" % qual, "C11-W1-single-constructor",
-                           "`.view(...)` creates a pose object outside a pose constructor, bypassing the angle wrap",
+                           "`.view(PoseSE2)` creates an SE(2) pose outside its constructor, bypassing the angle wrap",
                            where="%s:%d" % (fn._gs_module, node.lineno))
-    run_.floor("pose constructors using .view", n_views, 4)
+    run_.extra["se2_view_sites"] = n_views
     for cname in pkg.subclasses("BasePose", strict=False):
         ci = pkg.classes[cname]
         fns = [f for f, _, _ in ci.methods.values()] + list(ci.props.values())
